@@ -187,7 +187,8 @@ func (c CompareLine) HasNest() bool {
 // String returns the Comparison like as a string.
 func (c CompareLine) String() string {
 	if c.IsBool {
-		return "s[j]." + c.Accessor
+		// false sorts before true; must be false when both values are equal.
+		return "!s[i]." + c.Accessor + " && s[j]." + c.Accessor
 	}
 	return "s[i]." + c.Accessor + " < " + "s[j]." + c.Accessor
 }
